@@ -285,7 +285,8 @@ def run_random(ns, ctx, rnd, n):
                 others = [(k, cat[k]) for k in sibs[:2]]
             else:
                 t2 = rand_transformation(ns, rnd)
-                t2.from_datum, t2.to_datum, t2.ref_epoch = t.from_datum, t.to_datum, t.ref_epoch
+                # (built through the constructor: a parameter set need not accept later assignments)
+                t2 = ns.constants.Transformation(t.from_datum, t.to_datum, t.ref_epoch, tf_sd=t2.tf_sd, **{p: getattr(t2, p) for p in hx.P14})
                 lab2 = {p: getattr(t2, p) for p in hx.P14}
                 lab2['ref_epoch'] = str(t2.ref_epoch)
                 lab2['labels'] = [t2.from_datum, t2.to_datum]
